@@ -130,6 +130,7 @@ class Module:
         self._index(self.tree.body, '', None, None)
         # functions a rule looks up by name that were renamed consistently are read under their recorded name
         self.renamed: list = []
+        self.moved: list = []
         if not os.environ.get('MPSA_NO_RENAME_TOLERANCE'):
             from .anchors import reconcile
 
@@ -194,13 +195,33 @@ class Module:
         try:
             return self.functions[qualname]
         except KeyError:
+            moved = self._elsewhere('functions', qualname)
+            if moved is not None:
+                return moved
             raise AnchorError(f'{self.rel}: function `{qualname}` not found') from None
 
     def cls(self, qualname) -> ClassInfo:
         try:
             return self.classes[qualname]
         except KeyError:
+            moved = self._elsewhere('classes', qualname)
+            if moved is not None:
+                return moved
             raise AnchorError(f'{self.rel}: class `{qualname}` not found') from None
+
+    def _elsewhere(self, table, qualname):
+        """a definition that was moved to another module of the package is found there when the qualified name is unique"""
+        repo = getattr(self, 'repo', None)
+        if repo is None:
+            return None
+        top = qualname.split('.')[0]
+        hits = [m for m in repo.modules.values() if m is not self and qualname in getattr(m, table)]
+        if len(hits) == 1:
+            note = (qualname, hits[0].rel)
+            if note not in self.moved:
+                self.moved.append(note)
+            return getattr(hits[0], table)[qualname]
+        return None
 
     def has_func(self, qualname):
         return qualname in self.functions
@@ -218,6 +239,7 @@ class Repo:
         self.modules: dict[str, Module] = {}
         for p in sorted(pkg.rglob('*.py')):
             m = Module(self.root, p)
+            m.repo = self
             self.modules[m.rel] = m
 
     def module(self, rel) -> Module:
